@@ -255,3 +255,19 @@ func cwDatum(i int, d *types.MetricDatum, p *Payload, e *jsErrs, res *jsResolver
 	}
 	p.Recs = append(p.Recs, rec)
 }
+
+// CanonCloudWatch returns the Tags and Host that ParseCloudWatch reports for a series flushed with these tags and
+// this source when the backend is faithful to its own rules: only the first 10 tags become dimensions (the backend
+// logs "too many dimensions, truncated"), "k:set" is the bare tag "k", and there is never a host.
+func CanonCloudWatch(tags []string, source string) (ctags []string, host string) {
+	for i, t := range tags {
+		if i == 10 {
+			break
+		}
+		if k, v, found := strings.Cut(t, ":"); found && v == "set" {
+			t = k
+		}
+		ctags = append(ctags, t)
+	}
+	return jsSorted(ctags), ""
+}
